@@ -865,7 +865,7 @@ func (e *Engine) model(st *state, fr *frame, in ssa.CallInstruction, fn *ssa.Fun
 				// bulk: every element in index order, each in the given byte order
 				if esz, okE := fixedSize(sl.Elem()); okE {
 					first := stripCT(e.contentOf(st, args[0]))
-					if first.IsNilConst() || first.Op == "availbuf" || (first.Op == "makeslice" && isZero(first.Args[0])) {
+					if emptyBytes(first) {
 						eo := ord
 						if esz == 1 {
 							eo = ""
@@ -884,7 +884,7 @@ func (e *Engine) model(st *state, fr *frame, in ssa.CallInstruction, fn *ssa.Fun
 					ord = ""
 				}
 				first := stripCT(e.contentOf(st, args[0]))
-				if first.IsNilConst() || first.Op == "availbuf" || (first.Op == "makeslice" && isZero(first.Args[0])) || (first.Op == "slice" && first.Args[2] != nil && isZero(first.Args[2])) {
+				if emptyBytes(first) {
 					return one(st, tuple(&Val{Op: "intbytes", Name: ord, Args: []*Val{src}, Type: it}, mkNil(errT))), true
 				}
 			}
@@ -1118,7 +1118,7 @@ func (e *Engine) model(st *state, fr *frame, in ssa.CallInstruction, fn *ssa.Fun
 		if sr := stripCT(src); sr != nil && sr.Op == "stagedrep" && len(sr.Args) == 3 {
 			pre := stagedInts(sr.Args[0])
 			first := stripCT(sr.Args[0])
-			emptyInit := first.IsNilConst() || first.Op == "availbuf" || (first.Op == "makeslice" && isZero(first.Args[0]))
+			emptyInit := emptyBytes(first)
 			if pre != nil || emptyInit {
 				for _, ib := range pre {
 					sz, _ := fixedSize(ib.Type)
@@ -2063,7 +2063,7 @@ func stagedInts(src *Val) []*Val {
 				}
 			}
 			first := stripCT(src.Args[0])
-			if first.IsNilConst() || first.Op == "availbuf" || (first.Op == "makeslice" && isZero(first.Args[0])) || (first.Op == "slice" && first.Args[2] != nil && isZero(first.Args[2])) {
+			if emptyBytes(first) {
 				return []*Val{this}
 			}
 			if pre := stagedInts(first); pre != nil {
@@ -2075,7 +2075,7 @@ func stagedInts(src *Val) []*Val {
 			// append(staged-or-empty, b1, b2 …) with single-byte values: one 1-byte number each
 			first := stripCT(src.Args[0])
 			var pre []*Val
-			if first.IsNilConst() || first.Op == "availbuf" || (first.Op == "makeslice" && isZero(first.Args[0])) || (first.Op == "slice" && first.Args[2] != nil && isZero(first.Args[2])) {
+			if emptyBytes(first) {
 				pre = []*Val{}
 			} else if p := stagedInts(first); p != nil {
 				pre = p
@@ -2853,4 +2853,20 @@ func zeroTripArm(alt *Event) []*Event {
 		}
 	}
 	return nil
+}
+
+// emptyBytes: a byte slice of length zero, in the spellings the staging idioms start from: nil, buf.AvailableBuffer(),
+// make([]byte, 0, n), x[:0] – also of a local array nothing was stored into, whose front part of length 0 is
+// bytes.Repeat([0], 0).
+func emptyBytes(first *Val) bool {
+	if first == nil {
+		return false
+	}
+	if first.IsNilConst() || first.Op == "availbuf" || (first.Op == "makeslice" && isZero(first.Args[0])) || (first.Op == "slice" && len(first.Args) > 2 && first.Args[2] != nil && isZero(first.Args[2])) {
+		return true
+	}
+	if first.Op == "call" && first.Name == "bytes.Repeat" && len(first.Args) == 2 && isZero(first.Args[1]) {
+		return true
+	}
+	return false
 }
